@@ -19,7 +19,47 @@ CLAIM = ('Decides for common/iovector.{h,cpp}: (1) the bounds clause - copy leng
          'contents, remaining bytes) is otherwise NOT decided.')
 
 
+def iterator_pairing(R, prog):
+    """K13: iov_iterator walks (pointer, remaining-count): every step of the element pointer is paid for by one decrement of the
+    remaining count - otherwise the iterator believes the vector is longer than it is and reads iovec entries outside the view."""
+    f = prog.find('iov_iterator::operator+=')
+    G = K.build_f(R, prog, f)
+    ptrs = [fd for fd in ('_iov',)]
+    adv = lambda ev: ev.kind == 'unop' and ev.e['op'] in ('++',) and (ev.path(ev.e['sub']) or '') == 'this->_iov'
+    dec = lambda ev: (ev.kind == 'unop' and ev.e['op'] == '--' and (ev.path(ev.e['sub']) or '') == 'this->_iovcnt') or \
+        (ev.kind == 'binop' and ev.e['op'] == '-=' and (ev.path(ev.e['l']) or '') == 'this->_iovcnt')
+    res = an.run(G, [an.SeenTracker([('paid', dec), ('adv', adv, ('paid',))])])
+    K.check_at(R, P + '.K13', G, res, adv, require=lambda st, ev: 'S:paid' in st,
+               key_fn=lambda ev: P + '.K13:iov_iterator::operator+=:pointer-step-paid-by-count-decrement',
+               describe=lambda ev: 'each ++_iov follows its own --_iovcnt (one decrement per element stepped over)', min_sites=1, what='++_iov')
+
+
+def byte_totals_are_size_t(R, prog):
+    """K11 (types): a total of element lengths is accumulated in size_t; an int accumulator wraps at 2 GiB."""
+    f = prog.find('iovector_view::sum')
+    WIDE = ('size_t', 'unsigned long', 'uint64_t', 'unsigned long long', 'std::size_t')
+    bad = []
+    n = 0
+    for i, e in enumerate(f.exprs):
+        if e['k'] == 'binop' and e['op'] == '+=' and 'iov_len' in f.show(e['r']):
+            l = f.x(f.skip(e['l']))
+            n += 1
+            if l is not None and l['k'] == 'ref' and f.decls[l['decl']].get('type') not in WIDE:
+                bad.append('accumulator %s has type %s' % (l['name'], f.decls[l['decl']].get('type')))
+        if e['k'] == 'call' and strip_targs(e.get('fn') or '').endswith('accumulate'):
+            n += 1
+            if (e.get('ty') or '') not in WIDE:
+                bad.append('std::accumulate computes in %s' % e.get('ty'))
+    key = P + '.K11:iovector_view::sum:total-accumulated-in-size_t'
+    if n == 0:
+        R.broken.append('C14.K11: iovector_view::sum no longer accumulates element lengths in a recognisable way')
+    else:
+        (R.violated if bad else R.held)(P + '.K11', key, f.id, '%s:%d' % (f.file, f.line), '; '.join(bad) if bad else 'element lengths are summed in a 64-bit unsigned accumulator')
+
+
 def run(R, prog, tier):
+    R.guard(iterator_pairing, R, prog)
+    R.guard(byte_totals_are_size_t, R, prog)
     R.guard(copy, R, prog)
     R.guard(extract, R, prog)
     R.guard(misc, R, prog)
